@@ -49,7 +49,7 @@ func runAnnounce(r *ev.Run, id caseID) {
 		}
 	}
 	t = fsmx.New(fsmx.NewMem(), "t", 10001, 1, fsm.SnapshotRecoveryType(g.Intn(2)), func(applied uint64) {
-		if applied >= 1000 { // leader indices start at 1000; the local index announced by Open is below
+		if applied > 0 { // (Open announces 0, so does a table reset)
 			readSees(applied, "listener")
 			r.Count("announcements_checked_by_an_immediate_read", 1)
 		}
@@ -61,8 +61,11 @@ func runAnnounce(r *ev.Run, id caseID) {
 	}
 	defer t.Close()
 	var wg sync.WaitGroup
-	idx := uint64(0)
-	li := uint64(1000)
+	// the follower's own log index runs far ahead of the leader indices (as it does on a table that
+	// was reset or re-replicated before): a local index taken for a leader index would cover every
+	// revision anybody waits for
+	idx := uint64(50000)
+	li := uint64(0)
 	for applied := 0; applied < n; {
 		bsz := 1 + g.Intn(12)
 		if bsz > n-applied {
@@ -84,6 +87,20 @@ func runAnnounce(r *ev.Run, id caseID) {
 			if g.Intn(2) == 0 {
 				waitFor = append(waitFor, li)
 			}
+		}
+		// now and then the table is reset while writes are in flight: the batch ends with the reset
+		// marker (leader index 0), and callers already wait for revisions the leader has handed out
+		// but the node has not applied yet (they must stay waiting until their entries arrive)
+		if g.Intn(12) == 0 && n-(applied+bsz) >= 1 {
+			// (the batch's own entries are announced by the next batch only: nobody waits for them here)
+			waitFor = nil
+			idx++
+			zero := uint64(0)
+			es = append(es, fsmx.Entry(idx, &pb.Command{Table: []byte("t"), Type: pb.Command_DUMMY, LeaderIndex: &zero}))
+			for k, nk := 1, 1+g.Intn(3); k <= nk && k <= n-(applied+bsz); k++ {
+				waitFor = append(waitFor, li+uint64(k))
+			}
+			r.Count("table_resets_with_writes_in_flight", 1)
 		}
 		// callers registered before the batch is applied (as the forwarding server registers them
 		// after the leader answered)
